@@ -11,6 +11,8 @@ mapping of every spelling of a precision request.
 """
 import re
 
+import math
+
 import numpy as np
 from hypothesis import strategies as st
 
@@ -259,7 +261,8 @@ def check_build(case, rec):
             rec.fail("build-dtype:%s:part" % dt, "%s: part %s of %s built as %r" % (req, leaf.info.id, name, leaf.dtype))
         if ("sas%d_" % bits) not in leaf.dllpath:
             rec.fail("library-name:%s" % dt, "%s: library %s lacks the %d-bit tag" % (req, leaf.dllpath, bits))
-    q = np.array([0.005, 0.02, 0.1, 0.3])
+    # dense enough to land in every branch a model selects by q (series / closed form switches keyed on FLOAT_SIZE)
+    q = np.logspace(-3, math.log10(0.5), 16)
     kernel = model.make_kernel([q])
     pars, cutoff = {}, case.get("cutoff", 0.0)
     pd_names = [p.name for p in info.parameters.kernel_parameters if p.polydisperse and p.type == "volume" and p.length == 1]
@@ -279,7 +282,16 @@ def check_build(case, rec):
     if want is np.float32:
         if info.single and not rel <= 5e-5:
             rec.fail("single-vs-double:" + name, "relative difference %g" % rel)
-    elif not rel <= 1e-9:     # the difference to long double is the double kernel's own rounding
+    else:
+        # the difference to long double is the double kernel's own rounding error: up to 1.3e-9 on smooth models
+        # (sc_paracrystal), more where the model amplifies rounding (binary_hard_sphere 2e-7), which shows as the
+        # same kernel's response to moving q by a few ulp (79x that response observed at most; 200x allowed)
+        sens = 0.0
+        for kk in (-8, -4, -2, 2, 4, 8):
+            moved = direct_model.call_kernel(ref_model.make_kernel([q * (1 + kk * 1.1e-16)]), dict(pars), cutoff=cutoff)
+            sens = max(sens, float(np.max(np.abs(np.asarray(moved, float) - ref))))
+        tol_q = 3e-9 + 200 * sens / max(np.max(np.abs(ref)), 1e-300)
+    if want is not np.float32 and not rel <= tol_q:
         rec.fail("%s-vs-double:%s" % ("quad" if want is np.longdouble else "double", name), "relative difference %g" % rel)
 
 
